@@ -110,6 +110,9 @@ extern const op_t ops_misc[];
 #ifdef ORACLE_MD
 extern const op_t ops_md[];
 #endif
+#ifdef ORACLE_PROGS
+extern const op_t ops_prog[];
+#endif
 
 static const op_t *tables[] = {
 	ops_bn,
@@ -118,6 +121,9 @@ static const op_t *tables[] = {
 #endif
 #ifdef ORACLE_FULL
 	ops_fp, ops_ep, ops_misc,
+#endif
+#ifdef ORACLE_PROGS
+	ops_prog,
 #endif
 	NULL
 };
